@@ -93,7 +93,10 @@ def extra_positions():
             T.binop("In", n, T.lst(T.Int(1), MARK)), T.binop("In", s, T.lst(T.Flt("1.5"), MARK, T.Int(2))), T.binop("In", s, T.lst(T.NULL, MARK)),
             T.binop("In", s, T.lst(T.Bool(True), MARK)), T.binop("In", s, T.lst(("GUID", "123e4567-e89b-12d3-a456-426614174000"), MARK)),
             T.binop("In", d, T.lst(("Date", "2020-01-01"), MARK)), T.binop("In", d, T.lst(("DateTime", "2020-01-01T00:00:00Z"), MARK_K, MARK_J)),
-            T.binop("In", s, T.lst(s, MARK)), T.binop("In", s, T.lst(T.call("tolower", s), MARK))]
+            T.binop("In", s, T.lst(s, MARK)), T.binop("In", s, T.lst(T.call("tolower", s), MARK)),
+            # a string where a number is expected syntactically: under a unary minus / not, as an arithmetic operand
+            T.binop("Eq", n, T.unop("USub", MARK)), T.binop("In", n, T.lst(T.Int(1), T.unop("USub", MARK))), T.binop("Eq", n, T.binop("Add", n, MARK)),
+            T.binop("Eq", T.unop("USub", T.unop("USub", MARK)), n)]
 
 
 def positions():
@@ -283,6 +286,81 @@ def _field_unit(rng):
     return acc
 
 
+# ---- payload combinations: several string slots, a DIFFERENT payload in each ------------------------------------------------
+COMBO_SIGMA = ["a", "'", "\\", "q\\", "/*", "*/", "/* ", " */", "--", ";", "%", "\n"]
+SLOTS = [T.Str("\x01S0\x01"), T.Str("\x01S1\x01"), T.Str("\x01S2\x01")]
+
+
+def combo_skeletons():
+    s, u = T.I("s"), T.I("u")
+    M0, M1, M2 = SLOTS
+    return [
+        ("starts-concat-or-lower", T.binop("Or", T.call("startswith", T.call("concat", s, M0), M1), T.binop("Eq", T.call("tolower", u), M2))),
+        ("eq-and-eq-or-ne", T.binop("Or", T.binop("And", T.binop("Eq", s, M0), T.binop("Eq", u, M1)), T.binop("NotEq", s, M2))),
+        ("in-list", T.binop("In", s, T.lst(M0, M1, M2))),
+        ("contains-ends-eq", T.binop("And", T.binop("And", T.call("contains", s, M0), T.call("endswith", u, M1)), T.binop("Eq", s, M2))),
+        ("concat-eq", T.binop("Eq", T.call("concat", M0, M1), M2)),
+        ("eq-or-contains-or-eq", T.binop("Or", T.binop("Or", T.binop("Eq", M0, s), T.call("contains", u, M1)), T.binop("Eq", T.call("trim", M2), u))),
+    ]
+
+
+def combo_instantiate(base, triple):
+    m = dict(zip(SLOTS, triple))
+    return T.replace(base, lambda node: T.Str(m[node]) if node in m else node)
+
+
+def judge_combo(acc, name, triple, dialect, alias, text_p, res_p, res_x):
+    acc.count("executions")
+    acc.count("transitions")
+    info = {"layer": "combo", "skeleton": name, "payloads": list(triple), "dialect": dialect, "alias": alias, "filter": text_p}
+    if res_p[0] != "sql" or res_x[0] != "sql":
+        if res_p[0] == "foreign":
+            acc.violation("foreign-exc:%s" % dialect, dict(info, observed=res_p))
+        elif res_p != res_x:
+            acc.violation("payload-dependent-outcome:%s" % dialect, dict(info, observed=res_p, neutral=res_x))
+        return
+    escs = {}
+    tp = fold_escape(sqllex.lex(res_p[1]), escs)
+    tx = fold_escape(sqllex.lex(res_x[1]))
+    bad = sqllex.bad_tokens(tp)
+    if bad:
+        acc.violation("bad-token:%s:%s" % (dialect, bad[0].kind), dict(info, sql=res_p[1], bad=[b.text[:40] for b in bad[:3]]))
+        return
+    if len(tp) != len(tx):
+        acc.violation("token-count:%s" % dialect, dict(info, sql=res_p[1], neutral_sql=res_x[1]))
+        return
+    for i, (a, b) in enumerate(zip(tp, tx)):
+        if b.kind == "str" and "x" in b.value and any(("x%d" % j) in b.value for j in range(3)):
+            j = [j for j in range(3) if ("x%d" % j) in b.value][0]
+            k = b.value.find("x%d" % j)
+            pre, suf = b.value[:k], b.value[k + 2:]
+            if a.kind != "str" or not (a.value.startswith(pre) and (a.value.endswith(suf) or not suf) and len(a.value) >= len(pre) + len(suf)):
+                acc.violation("literal-value:%s" % dialect, dict(info, sql=res_p[1], neutral_sql=res_x[1], slot=j))
+                return
+            inner = a.value[len(pre):len(a.value) - len(suf)] if suf else a.value[len(pre):]
+            if not (inner == triple[j] or (i in escs and like_unescape(inner, escs[i]) == triple[j])):
+                acc.violation("literal-value:%s" % dialect, dict(info, sql=res_p[1], literal=a.value, slot=j))
+                return
+        elif a != b:
+            acc.violation("tokens-outside-literal-changed:%s" % dialect, dict(info, sql=res_p[1], neutral_sql=res_x[1], index=i))
+            return
+    acc.outcome(("combo-ok", dialect))
+
+
+def _combo_unit(unit):
+    acc = Acc()
+    for name, base, triples in unit:
+        tx = to_odata(combo_instantiate(base, ("x0", "x1", "x2")))
+        neutral = {(d, al): translate(tx, d, al) for d in DIALECTS for al in (None, "al")}
+        for triple in triples:
+            acc.count("states")
+            text_p = to_odata(combo_instantiate(base, triple))
+            for d in DIALECTS:
+                for al in (None, "al"):
+                    judge_combo(acc, name, triple, d, al, text_p, translate(text_p, d, al), neutral[(d, al)])
+    return acc
+
+
 def punctuation_payloads():
     """contents that use up a translator's choices: every ASCII punctuation character except one (for each one), every prefix of
     the punctuation in ASCII order (with and without a leading backslash), each followed by a LIKE wildcard and an attack suffix.
@@ -333,6 +411,11 @@ def run(ctx):
     ctx.pmap(_payload_unit, units)
     ctx.layer("payloads", max_len=k, payloads=len(ps), positions=len(positions()), dialects=3, alias=2,
               executed_payloads=len(exec_set), exhaustive=True)
+    triples = list(product(COMBO_SIGMA, repeat=3))
+    ctx.pmap(_combo_unit, [[(name, base, ch)] for name, base in combo_skeletons() for ch in chunked(triples, 300)])
+    ctx.layer("payload-combinations", skeletons=len(combo_skeletons()), slots=3, alphabet=len(COMBO_SIGMA), triples=len(triples),
+              dialects=3, alias=2, exhaustive=True,
+              note="a different payload in each of three string slots: text between two literals must not depend on their contents")
     if ctx.quick:
         b = ctx.seed % 8
         ranges = [(0, 0x1000)] + [(x, x + 512) for x in range(0x1000 + b * 0x1E00, 0x1000 + (b + 1) * 0x1E00, 512)]
@@ -355,6 +438,12 @@ def replay(ctx, case):
         judge_pair(acc, case["position"], case["payload"], case["dialect"], case["alias"], case["filter"], res_p, res_x,
                    nocc=sum(1 for st in T.subterms(pos[1]) if st in (MARK, MARK_K, MARK_J)))
         return {"filter": case["filter"], "sql": res_p, "neutral_sql": res_x, "violations": acc.violations, "ok": not acc.violations}
+    if case.get("layer") == "combo":
+        base = dict(combo_skeletons())[case["skeleton"]]
+        tx = to_odata(combo_instantiate(base, ("x0", "x1", "x2")))
+        judge_combo(acc, case["skeleton"], tuple(case["payloads"]), case["dialect"], case["alias"], case["filter"],
+                    translate(case["filter"], case["dialect"], case["alias"]), translate(tx, case["dialect"], case["alias"]))
+        return {"filter": case["filter"], "violations": acc.violations, "ok": not acc.violations}
     if case.get("layer") == "field":
         _field_unit((case["codepoint"], case["codepoint"] + 1))
         acc = _field_unit((case["codepoint"], case["codepoint"] + 1))
